@@ -194,7 +194,7 @@ def run(res):
     for _ in range(n):
         cl, kinds = gen_closure(rnd)
         kind = rnd.randrange(3)
-        addr = 0x55000000 + 0x100 * rnd.randrange(4)
+        addr = 0x55000000 + 0x100 * rnd.randrange(4) if rnd.random() < 0.7 else 0x7f3a14002b60 + 0x100000000 * rnd.randrange(3)
         target = rnd.choice(IFACES)
         t = rnd.randrange(10 ** 9)
         cases.append([kind, addr, target, cl, t])
